@@ -422,6 +422,18 @@ def tasks_c12(root, tier, tree):
                 "seeds": [x.hex() for x in xs], "canaries": {o["name"]: 90 for o in spec.get("outputs", []) if o.get("canary")},
                 "_fn": c12_unit}
         tasks.append(("call", root, idx, unit, T))
+    # F9: string constants and computed bytes (assignments, defaults, char-appends) - the copy of a constant is emitted
+    # differently per storage mode and string type; own index range, so the units above are what they were
+    for j in range(T["gen"] // 8):
+        idx = 260000 + j
+        rng = sched.rng_for(root, "c12-family-F9", idx)
+        spec = families.gen_f9(rng)
+        if spec.get("toolong"):
+            continue
+        xs = families.f9_inputs(rng, spec, 6)
+        unit = {"label": "gen:c12-family-F9:%d" % idx, "source": spec["source"], "base_argv": [], "need": spec["need"],
+                "seeds": [x.hex() for x in xs], "canaries": {"zc0": 90, "zc1": 90}, "_fn": c12_unit}
+        tasks.append(("call", root, idx, unit, T))
     return tasks
 
 
